@@ -671,7 +671,7 @@ func main() {
 		}
 		emitProbe(in, fmt.Sprintf("small-%d", i))
 	}
-	n := o.Count(1500, 20000)
+	n := o.Count(1500, 8000)
 	for i := 0; i < n; i++ {
 		emitProbe(genProbe(rng.Fork(fmt.Sprintf("probe%d", i))), fmt.Sprintf("probe-%d", i))
 	}
